@@ -48,6 +48,18 @@ package dashboards
 //@     assert [only-files-of-registered-dashboards-are-removed] ghost(0, "dashIdRegistered") == 1
 //@ end
 
+// The same discipline for the two writers that build the file name from the raw
+// id: the details file is (re)written only after the id was found among the
+// items of the folder structure.
+//@ func refreshFolderMetadata
+//@   props C19
+//@   ghostinit ghost(0, "dashIdRegistered") == 0
+//@   site mapread structure.Items[id] #1:
+//@     ghostset ghost(0, "dashIdRegistered") = ite(ok, 1, 0)
+//@   site call os.WriteFile #1:
+//@     assert [only-files-of-registered-dashboards-are-written] ghost(0, "dashIdRegistered") == 1
+//@ end
+
 // C20 (saved objects behave as a keyed store: reads return the last written
 // state): a dashboard's name lives in two places, its details file and its
 // item in the folder structure (which listings, folder contents and the
@@ -58,9 +70,13 @@ package dashboards
 //@ ghostdecl dashStored int
 //@ ghostdecl dashStoredName string
 //@ func updateDashboard
-//@   props C20
+//@   props C20 C19
 //@   assumecalleerequires
-//@   ghostinit ghost(0, "dashStored") == 0
+//@   ghostinit ghost(0, "dashStored") == 0 && ghost(0, "dashIdRegistered") == 0
+//@   site mapread structure.Items[id] #1:
+//@     ghostset ghost(0, "dashIdRegistered") = ite(ok, 1, 0)
+//@   site call os.WriteFile #1:
+//@     assert [only-files-of-registered-dashboards-are-written] ghost(0, "dashIdRegistered") == 1
 //@   site mapupdate structure.Items[id] #1:
 //@     ghostset ghost(0, "dashStored") = 1
 //@     ghostset ghost(0, "dashStoredName") = item.Name
